@@ -128,6 +128,7 @@ def charts(ctx, out):
         p = ic.prof(flags=0.5, garbage=0.0, resolutions=(192, 100, 96, 480, 7, 1, 3, 1000, 125, 50))
         src = gen.rand_src(rng, p)
         cases.append((src, gen.render(src, rng, p)))
+    cases += ic.revisit_cases(rng, ic.prof(garbage=0.0, flags=0.0), ctx.n(12, 1200))
     ic.run(ctx, out, cases, lambda notes: [(n["tick"], n["hopo"]) for n in notes],
            lambda tl: [(t["tick"], t["hopo"]) for t in tl], "HOPO states",
            lambda src: any(len(tr.groups) > 1 for tr in src.tracks))
